@@ -3,6 +3,8 @@
 # property -> list of (world, share of wall budget, chunk size)
 PROPERTIES = {
     "C15": [("chain", 1.0, 400)],
+    "C01": [("ec", 1.0, 8)],
+    "C02": [("ec", 1.0, 8)],
 }
 
 # wall seconds of search per property (shrinking and evidence writing come on top)
